@@ -86,6 +86,15 @@ Theorem C12_found_empty : forall line, pat_search REps line = true.
 Proof. exact re_search_eps. Qed.
 Print Assumptions C12_found_empty.
 
+(* the quantifiers mean what Python's mean: a* is any number of rounds of a, a{m,n} between m and n rounds (+ ? are a{1,}, a{0,1}) *)
+Theorem C12_pattern_star : forall line a i j, M line (RStar a) i j <-> exists k, Mpow line a k i j.
+Proof. exact re_star_spec. Qed.
+Print Assumptions C12_pattern_star.
+Theorem C12_pattern_repetition : forall line a m d i j,
+  M line (re_rep a m d) i j <-> exists k, m <= k <= m + d /\ Mpow line a k i j.
+Proof. exact re_rep_spec. Qed.
+Print Assumptions C12_pattern_repetition.
+
 (* end to end, in the vocabulary of the property: a region is handed to block type k iff k is the first declared type whose
    begin pattern denotes some stretch of the region's first line (first byte window in binary storage) *)
 Definition denotes (p : pattern) (line : str) : Prop := exists i j, i <= List.length line /\ M line p i j.
